@@ -424,10 +424,16 @@ def total_cases(rng, pools, tier):
         pat = rng.choice(["(a, b)", "S { a }", "Some(x)", "[a, b]", "_"])
         add("I:let_pattern", "let %s = %s |> f" % (pat, b0.initial), cfgs)
         # duplicated options
-        for (k, v) in [("custom_joiner", "j!"), ("lazy_branches", "true"), ("transpose_results", "false"), ("futures_crate_path", "::f")]:
+        # duplicated options: same and different values, every value order
+        for (k, v, v2) in [("custom_joiner", "j!", "k!"), ("custom_joiner", "j!", "j!"), ("lazy_branches", "true", "true"), ("lazy_branches", "false", "true"),
+                           ("lazy_branches", "true", "false"), ("lazy_branches", "false", "false"), ("transpose_results", "false", "false"),
+                           ("transpose_results", "false", "true"), ("transpose_results", "true", "false"), ("transpose_results", "true", "true"),
+                           ("futures_crate_path", "::f", "::f"), ("futures_crate_path", "::f", "::g")]:
             others = [kv for kv in base.options if kv[0] != k]
-            seq = others + [(k, v), (k, v)]
-            rng.shuffle(seq)
+            pos = sorted(rng.sample(range(len(others) + 2), 2))
+            seq = list(others)
+            seq.insert(pos[0], (k, v))
+            seq.insert(pos[1], (k, v2))
             add("I:dup_option", "".join("%s(%s) " % kv for kv in seq) + base.branches[0].render(lambda: " "), [2 | rng.randrange(2) | 4 * rng.randrange(2)])
         # two handlers
         h1, h2 = rng.choice(["map", "and_then", "then"]), rng.choice(["map", "and_then", "then"])
@@ -529,11 +535,12 @@ def option_cases(rng, pools):
                     for cfg in (2, 3, 6, 7) if any(k == "futures_crate_path" for k, _ in perm) else range(8):
                         eq_rows.append(("g%d" % gid, str(cfg), text))
                 # duplicates of each option inside this subset, every position
+                alt = {"futures_crate_path": "::other::futures", "custom_joiner": "other_join!", "transpose_results": "true", "lazy_branches": "false"}
                 for (k, v) in opts:
-                    seq = list(subset) + [(k, v)] if (k, v) in subset else None
-                    if seq is None:
-                        seq = list(subset) + [(k, v), (k, v)]
-                    for perm in set(itertools.permutations(seq)):
+                    base = [kv for kv in subset if kv[0] != k]
+                    seqs = [base + [(k, v), (k, v)], base + [(k, v), (k, alt[k])], base + [(k, alt[k]), (k, alt[k])]]
+                    for seq in seqs:
+                      for perm in set(itertools.permutations(seq)):
                         text = "".join("%s(%s) " % kv for kv in perm) + body
                         total_rows.append(("o%d" % len(total_rows), str(rng.choice([2, 3, 6, 7])), "I:dup_option", text))
     return eq_rows, total_rows
